@@ -98,7 +98,7 @@ def specs(draw):
             for d in pool:
                 if d not in have:
                     tree = ['add', tree, ['var', d]]
-            nodes.append({'name': name, 'kind': 'dep', 'tree': tree})
+            nodes.append({'name': name, 'kind': 'dep', 'tree': tree, 'tiny': draw(st.integers(0, 6)) == 0})
     order = draw(st.permutations(list(range(n))))
     sf_order = draw(st.permutations(list(range(n))))
     variant = draw(st.sampled_from([None, None, None, None, 'selfloop', 'cycle2', 'longcycle', 'dangling']))
@@ -108,6 +108,17 @@ def specs(draw):
             'shadow': mode == 'gss' and draw(st.integers(0, 3)) == 0,
             'student_idx': draw(st.lists(st.sampled_from(NUM_IDX), min_size=1, max_size=3, unique=True))}
     return spec
+
+
+TINY = 1e-20
+
+
+def formula_of(nd):
+    """Formula text of a dependent node; 'tiny' nodes are multiplied by 1e-20*i: a value whose imaginary part is far below
+    any 'close to real' threshold and still is what the formula says (a seeded change passed dependent values through
+    numpy.real_if_close, turning them into 0.0)."""
+    text = X.render(nd['tree'])
+    return '(%s)*1e-20*i' % text if nd.get('tiny') else text
 
 
 def ranges(i):
@@ -130,7 +141,7 @@ def build(spec):
         elif nd['kind'] == 'vec':
             samplers[nd['name']] = RealVectors(shape=2, norm=[lo, hi])
         else:
-            samplers[nd['name']] = DependentSampler(formula=X.render(nd['tree']))
+            samplers[nd['name']] = DependentSampler(formula=formula_of(nd))
     # cyclic / dangling variants
     deps_nodes = [nd for nd in nodes if nd['kind'] == 'dep' and X.names_of(nd['tree'])['vars'] & set(table)]
     v = spec['variant']
@@ -237,6 +248,12 @@ def check_sample(spec, table, sample, extra_expected, rec, where):
             rec.note('dependent-not-judged')
             continue
         val = sample[nd['name']]
+        if nd.get('tiny') and isinstance(val, (int, float, complex)):
+            if abs(ref) < 1e-3:
+                rec.note('dependent-not-judged')
+                continue
+            val = complex(val) / (TINY * 1j)
+            rec.cls('dependent-with-tiny-imaginary-value')
         if not isinstance(val, (int, float, complex)) or abs(val - ref) > tol:
             raise Violation('dependent-inconsistent', '%s: %s = %r but its formula %r gives %r on the same sample' % (
                 where, nd['name'], val, X.render(nd['tree']), ref))
@@ -338,7 +355,7 @@ def judge(spec, rec):
             # the grader had added I to its constants, and refused such configurations.)
             for nd in spec['nodes']:
                 if nd['kind'] == 'dep':
-                    sample_from[nd['name']] = DependentSampler(formula='(%s)*det(I)' % X.render(nd['tree']))
+                    sample_from[nd['name']] = DependentSampler(formula='(%s)*det(I)' % formula_of(nd))
                     rec.cls('dependent-uses-grader-supplied-identity-constant')
             cfg['identity_dim'] = 2
         kind, g = call(MatrixGrader, **cfg)
